@@ -8,6 +8,7 @@ import (
 	"strconv"
 	"strings"
 	"sync/atomic"
+	"time"
 
 	"golang.org/x/tools/go/ssa"
 )
@@ -1393,7 +1394,11 @@ func (p *Path) check(extra []*B, slice, exact, model, important bool) (Tri, map[
 	}
 	p.nQueries++
 	atomic.AddInt64(&p.eng.stats.smtQueries, 1)
+	tq := time.Now()
 	res, m, how := p.pf.solve(sb.String(), want, important)
+	if d := time.Since(tq); d > 300*time.Millisecond && p.eng.cfg.verbose {
+		fmt.Fprintf(p.eng.logw, ";; SLOW query %.2fs (%v via %s, model=%v slice=%v)\n%s\n", d.Seconds(), res, how, model, slice, sb.String())
+	}
 	if p.eng.cfg.dumpQueries {
 		fmt.Fprintf(p.eng.logw, ";; ---- query (%v via %s)\n%s\n", res, how, sb.String())
 	}
